@@ -239,8 +239,24 @@ def check(ctx):
     upads = [c for f, c in calls_in(ts) if repo.dotted(f, c.func) == "dataiter.util.upad"]
     joins = [c for f, c in calls_in(ts) if isinstance(c.func, ast.Attribute) and c.func.attr == "join"]
     # cells: the dict comprehension / loop that builds per-column blocks must wrap its list in util.upad
-    blocks = [n for n in ast.walk(ts.node) if isinstance(n, ast.DictComp)]
-    ok = bool(blocks) and all(isinstance(b.value, ast.Call) and b.value in upads for b in blocks)
+    from ..forms import contributions as _contrib, expand as _expand20
+    from ..dataflow import defs_reaching as _dr20
+    blocks = []
+    ok = False
+    for nm in sorted({n.targets[0].id for n in body_nodes(ts.node) if isinstance(n, ast.Assign) and isinstance(n.targets[0], ast.Name)
+                      and isinstance(n.value, (ast.Dict, ast.DictComp))}):
+        cs = [x for x in _contrib(ts, nm) if x["key"] is not None and x["iter"] is not None
+              and norm(x["iter"]) in (f"{ts.params[0]}.items()", f"{ts.params[0]}")]
+        if not cs:
+            continue
+        blocks = [x["node"] for x in cs]
+        ok = True
+        for x in cs:
+            vals = [x["value"]]
+            if isinstance(x["value"], ast.Name):
+                vals = [d.value for d in _dr20(ts, x["value"].id, x["node"]) if d.value is not None]
+            if not (vals and all(isinstance(v, ast.Call) and repo.dotted(ts, v.func) == "dataiter.util.upad" for v in vals)):
+                ok = False
     ctx.ob("SIB-pad", ts, "column block = util.upad([name, dtype label, *cells])", blocks[0] if blocks else ts.node, ok,
            "every per-column cell list is padded to one width" if ok else
            "a per-column cell list is not passed through util.upad: lines of a block differ in width",
@@ -303,9 +319,17 @@ def check(ctx):
            "row-number column is padded" if rn_ok else "row numbers are not padded with util.upad",
            nontrivial=False, clause="within a block all lines have the same display width")
     if blocks:
-        b = blocks[0].value
-        elts = norm(b.args[0]) if isinstance(b, ast.Call) and b.args else ""
-        ok = "colname" in elts and "dtype_label" in elts and "to_strings" in elts
+        # the list handed to upad, with temporaries expanded
+        pads = [c for c in upads if any(c is x or any(c is y for y in ast.walk(x)) for x in ast.walk(blocks[0]))] or \
+            [c for c in upads if not (isinstance(ts.module.parent.get(c), ast.Assign) and "row" in getattr(ts.module.parent.get(c).targets[0], "id", ""))]
+        b = pads[0] if pads else None
+        elts = norm(_expand20(ts, b.args[0], b)) if isinstance(b, ast.Call) and b.args else ""
+        loopvar = None
+        for lp_ in [n for n in ast.walk(ts.node) if isinstance(n, (ast.For, ast.comprehension))]:
+            it_ = lp_.iter
+            if norm(it_) == f"{ts.params[0]}.items()" and isinstance(lp_.target, ast.Tuple) and len(lp_.target.elts) == 2:
+                loopvar = norm(lp_.target.elts[0])
+        ok = (loopvar or "colname") in elts and "dtype_label" in elts and "to_strings" in elts
         ctx.ob("SIB-pad", ts, "block lists column name, dtype label and cells", blocks[0], ok,
                "name, dtype label and cells are all part of the padded list" if ok else
                f"padded list {elts} lacks the column name, the dtype label or the cells", nontrivial=False,
